@@ -133,7 +133,9 @@ class _ScopeManager(threading.local):
       scope: A list of active scope names, ordered from outermost to innermost.
     """
     self._maybe_init()
-    self._active_scopes.append(scope)
+    # Store a copy: the caller keeps (and `config_scope` yields) `scope` itself,
+    # and mutating that list must not alter this or any other thread's stack.
+    self._active_scopes.append(scope[:])
 
   def exit_scope(self):
     """Exits the most recently entered scope."""
